@@ -1073,6 +1073,25 @@ pub mod spec {
     /// the hook leaves everything as it is
     #[cfg(feature = "autocomplete")]
     pub open spec fn pushes_nothing(pre: State, post: State) -> bool { post == pre }
+
+    // ---- what a primitive parser shows about itself (Parser::meta) versus what it accepts (C12)
+    /// the item a Meta shows, looking through `Optional` / `Strict`
+    pub open spec fn shown_item(m: Meta) -> Option<Item> {
+        match m {
+            Meta::Item(i) => Some(*i),
+            Meta::Optional(x) => match *x { Meta::Item(i) => Some(*i), _ => None },
+            Meta::Strict(x) => match *x { Meta::Item(i) => Some(*i), _ => None },
+            _ => None,
+        }
+    }
+    /// the item is shown under the names `first_names(named)`
+    pub open spec fn shows_names_of(m: Meta, named: NamedArg) -> bool {
+        match shown_item(m) {
+            Some(Item::Flag { name, .. }) => first_names(named) == Ok::<ShortLong, ()>(name),
+            Some(Item::Argument { name, .. }) => first_names(named) == Ok::<ShortLong, ()>(name),
+            _ => false,
+        }
+    }
 }
 
 pub mod lemmas {
@@ -2471,6 +2490,20 @@ impl Doc {
             r matches Some(i) ==> i is Flag && i->Flag_name == first_names(*self)->Ok_0 && i->Flag_shorts@ == self.short@ && i->Flag_env == first_env(self.env@) && i->Flag_help == self.help, // #name_env_help_are_the_declared_ones
 //@@ end
 
+//@@ fn src/meta.rs | impl From for Meta | fn from
+//@@ unit meta.Meta.from_item tags=C12 inherent
+//@@ ret r
+//@@ spec
+        ensures r == Meta::Item(Box::new(value)),
+//@@ end
+
+//@@ fn src/item.rs | impl Item | fn required
+//@@ unit item.Item.required tags=C12
+//@@ ret r
+//@@ spec
+        ensures r == (if required { Meta::Item(Box::new(self)) } else { Meta::Optional(Box::new(Meta::Item(Box::new(self)))) }), // #optional_brackets_iff_not_required
+//@@ end
+
 //@@ fn src/params.rs | impl Parser for ParseFlag | fn eval
 //@@ unit params.ParseFlag.eval tags=C18,C10,C06,C20
 //@@ members
@@ -2485,7 +2518,12 @@ proof {
 }
 //@@ insert before 1 `match &self.absent`
 proof { lemma_env_find_miss(self.named.env@); }
-//@@ also fn meta external_body
+//@@ also fn meta
+//@@ ret m
+//@@ spec
+        ensures
+            first_names(self.named) is Err ==> m is Skip, // #nothing_shown_for_an_item_without_a_name
+            first_names(self.named) is Ok ==> shows_names_of(m, self.named) && (m is Optional) == (self.absent is Some), // #shown_under_its_first_names_optional_iff_it_has_a_default
 //@@ end
 
 //@@ fn src/params.rs | fn build_flag_parser
@@ -2642,7 +2680,12 @@ proof { lemma_env_find_miss(self.named.env@); }
             },
         }
     }
-//@@ also fn meta external_body
+//@@ also fn meta
+//@@ ret m
+//@@ spec
+        ensures
+            first_names(self.named) is Err ==> m is Skip, // #nothing_shown_for_an_item_without_a_name
+            first_names(self.named) is Ok ==> shows_names_of(m, self.named) && m is Item, // #shown_under_its_first_names
 //@@ end
 
 
@@ -2863,11 +2906,6 @@ impl ArgScanner<'_> {
     #[verifier::external_body]
     pub fn check_next(&mut self, arg: &std::ffi::OsStr) -> (r: bool)
         ensures final(self).name == old(self).name, !r ==> final(self).revision == old(self).revision,
-    { unimplemented!() }
-    /// assumed: completion bookkeeping exists iff a revision was requested
-    #[verifier::external_body]
-    pub fn done(&self) -> (r: Option<crate::complete_gen::Complete>)
-        ensures r is Some == self.revision is Some,
     { unimplemented!() }
 }
 
@@ -3425,6 +3463,22 @@ proof {
 
 //@@ type src/complete_gen.rs | struct Complete
 //@@ unit complete_gen.Complete tags= derive_clone cfg=autocomplete
+//@@ end
+
+//@@ fn src/complete_gen.rs | impl Complete | fn new
+//@@ unit complete_gen.Complete.new tags=C14 cfg=autocomplete
+//@@ ret r
+//@@ spec
+        ensures r.comps@.len() == 0 && r.output_rev == output_rev && !r.no_pos_ahead, // #starts_without_candidates
+//@@ end
+
+//@@ fn src/complete_run.rs | impl ArgScanner | fn done
+//@@ unit complete_run.ArgScanner.done tags=C14,C20 cfg=autocomplete
+//@@ ret r
+//@@ spec
+        ensures
+            r is Some == self.revision is Some, // #completion_mode_iff_the_marker_was_seen
+            r matches Some(c) ==> c.comps@.len() == 0,
 //@@ end
 
 //@@ fn src/complete_gen.rs | impl Complete | fn swap_comps
